@@ -219,6 +219,8 @@ class Crate:
         self.lowered = {}
         if lower and not data.get("_lowered"):
             self.lowered = inline.lower_combinators(data["bodies"], data.get("adts"))
+            # (`.map(helper)` has become a plain call of the private helper: splice it like any other)
+            inline.inline_crate(data["bodies"])
             self.threaded = inline.thread_known_switches(data["bodies"])
             data["_lowered"] = True
         self.absorbed = {}
